@@ -15,7 +15,6 @@ Section Meta.
   Variable fl : file.
   Variable cfg : config.
   Variable glob : globals.
-  Variable budget : option N.
   Variable regexes : list rx.
   Variable find : rx -> str -> option (list (option (N * N))).
   Variable call : ident -> graph -> list value -> res (value * graph).
@@ -33,7 +32,7 @@ Section Meta.
   Hypothesis Phi_set_locals : forall l, Phi (set_locals l).
   Hypothesis Phi_set_scoped : forall sc, Phi (set_scoped sc).
   Hypothesis Phi_set_params : forall p, Phi (set_params p).
-  Hypothesis Phi_poll : forall l, Phi (poll budget l).
+  Hypothesis Phi_poll : forall l, Phi (@poll sstate l).
   Hypothesis Phi_add_node : Phi add_node.
   Hypothesis Phi_add_attr : forall tgt k v, Phi (add_attr tgt k v).
   Hypothesis Phi_add_edge : forall a b, Phi (add_edge a b).
@@ -98,8 +97,8 @@ Section Meta.
   Ltac phi2 := repeat phi2_step.
 
   Notation eval' := (eval t fl glob call).
-  Notation exec_attr' := (exec_attr t fl glob budget call).
-  Notation exec_stmt' := (exec_stmt t fl cfg glob budget regexes find call).
+  Notation exec_attr' := (exec_attr t fl glob call).
+  Notation exec_stmt' := (exec_stmt t fl cfg glob regexes find call).
 
   Lemma Phi_eval : forall fuel le e, Phi (eval' fuel le e).
   Proof.
@@ -122,7 +121,7 @@ Section Meta.
 
   Lemma Phi_scan_loop run_arm arms rs subject :
     (forall caps body, Phi (run_arm caps body)) ->
-    forall sfuel i, Phi (scan_loop budget find run_arm arms rs subject sfuel i).
+    forall sfuel i, Phi (scan_loop find run_arm arms rs subject sfuel i).
   Proof.
     intros Hrun. induction sfuel as [|sfuel IHs]; intros i; cbn [scan_loop]; [apply Phi_oof|].
     destruct (N.ltb i (N.of_nat (length subject))); [|apply Phi_ret].
@@ -175,13 +174,13 @@ Section Meta.
       apply Phi_bind; [apply Phi_unscoped_add|intros _]. apply (Hblock le (fun m => m) body); auto.
   Qed.
 
-  Lemma Phi_exec_stanza fuel st m : Phi (exec_stanza t fl cfg glob budget regexes find call fuel st m).
+  Lemma Phi_exec_stanza fuel st m : Phi (exec_stanza t fl cfg glob regexes find call fuel st m).
   Proof.
     unfold exec_stanza. apply Phi_bind; [apply Phi_clear_frame|intros _]. apply Phi_iterM. intros s.
     cbv zeta. apply Phi_bind; [apply Phi_full_match_node|intros n]. apply Phi_ctx, Phi_exec_stmt.
   Qed.
 
-  Theorem Phi_exec_file fuel : forall sts ms, Phi (exec_file t fl cfg glob budget regexes find call fuel sts ms).
+  Theorem Phi_exec_file fuel : forall sts ms, Phi (exec_file t fl cfg glob regexes find call fuel sts ms).
   Proof.
     induction sts as [|st sts IH]; intros [|m ms]; cbn [exec_file]; try apply Phi_ret.
     apply Phi_bind; [apply Phi_iterM; intros x; apply Phi_exec_stanza|intros _]. apply IH.
